@@ -40,6 +40,10 @@ def plan(seed, overrides=None):
         twin["v"]["_rev"] = 2
         recipes[f"doc{i}t"] = twin
         recipes[f"ndoc{i}"] = G.gen_document_recipe(rr, python_form=False)
+        if rr.random() < 0.25 and "alias" not in recipes[f"ndoc{i}"]:
+            recipes[f"ndoc{i}"]["odict"] = True       # notations handed over as OrderedDict (Python API use)
+        if rr.random() < 0.2 and "alias" not in recipes[f"desc{i}"]:
+            recipes[f"desc{i}"]["odict"] = True
         # documents whose root is a list (or a bare complex number)
         root = "list"      # a bare complex number at the root is not "nested in dictionaries and lists": outside C17
         if root == "list":
